@@ -340,7 +340,8 @@ class GeneFeature(Feature):
                 transcripts.append(tx_model)
 
         # pick most common transcript type; hacky
-        gene_biotype = tx_biotypes.most_common(1)[0][0]
+        # ties are broken by name so that the result does not depend on the order of the records in the file
+        gene_biotype = min(tx_biotypes, key=lambda biotype: (-tx_biotypes[biotype], biotype.name))
         gene = GeneIntervalModel.Schema().load(
             dict(
                 transcripts=transcripts,
